@@ -58,6 +58,8 @@ STD_CELLS = [
     ("pool-2", "G2u", {"n_pool": 2}),
     ("capped-300", "G2u", {"max_iteration": 300}),
     ("prior-sampling", "G2u", {"prior_sampling": True}),
+    # nessai's default is plot=True: periodic state / trace / proposal plots are produced while sampling
+    ("default-with-plots", "G2u", {"plot": True, "nlive": 50}),
     # uniform prior written without a bounds test: only the samplers' own checks keep the points inside the box
     ("prior-without-bounds-check", "G2k", {}),
     ("prior-without-bounds-check-logit-novolume", "G2k", {"reparameterisations": {"x0": "logit", "x1": "null"}, "constant_volume_mode": False}),
@@ -81,7 +83,7 @@ QUICK_STD = ["default-G2u", "default-G4u", "nonuniform-analytic", "nonuniform-re
              "reparam-logit", "reparam-inversion-split", "reparam-inversion-duplicate", "reparam-angle", "flow-maf", "flow-nsf", "nlive-10", "nlive-300",
              "memory", "reset-weights", "uninformed-50", "shrinkage-t", "pool-2", "capped-300", "prior-sampling", "prior-sampling-checkpointing", "asym-bounds-dict-reordered", "asym-reordered-reparam", "asym-reordered-logit-zscore", "logL-minus-2000", "logL-plus-900", "tolerance-loose",
              "killed-after-mid-iteration-training", "killed-after-mid-iteration-training-time-schedule",
-             "prior-without-bounds-check", "prior-without-bounds-check-logit-novolume"]
+             "prior-without-bounds-check", "prior-without-bounds-check-logit-novolume", "default-with-plots"]
 
 
 GEN_AXES = dict(
@@ -203,6 +205,7 @@ INS_CELLS = [
     # likelihood with plateaus (many exactly tied values): batches tie with stored samples and with the threshold
     ("ins-ties", "Tie2", {"max_iteration": 8}, None),
     ("ins-ties-strict-resume", "Tie2", {"strict_threshold": True, "max_iteration": 8, "save_log_q": True}, [2]),
+    ("ins-default-with-plots", "G2u", {"plot": True, "max_iteration": 8}, [3]),
     ("ins-gw5", "GW5", {"nlive": 400, "min_samples": 100, "max_iteration": 8}, None),
     # no i.i.d. set, and the kept part of the live set falls below the training floor (cap below the floor / fixed update index)
     ("ins-no-iid-max-samples-below-floor", "G2u", {"draw_iid_live": False, "min_samples": 150, "max_samples": 300}, None),
